@@ -22,7 +22,7 @@ from typing import Any, Dict, List
 
 MSG_DEFAULT = {"kind": "valid", "task": "ta0", "body": "wait", "outcome": "ret", "timeout": 0, "savefail": False, "ackfail": False, "tid": 0, "slowcancel": False, "slow": False, "late": False, "afterreg": False}
 MW_DEFAULT = {"pre": "", "onerr": "", "post": "", "postsave": "", "replace": False, "late": False}
-DEP_DEFAULT = {"style": "gen", "cached": True, "parent": 0, "suspend": False, "fail": False}
+DEP_DEFAULT = {"style": "gen", "cached": True, "parent": 0, "suspend": False, "fail": False, "csusp": False}
 
 
 def compile_deps(decl: List[Dict[str, Any]]) -> Dict[str, Any]:
